@@ -80,7 +80,7 @@ def rich_story(rng, sid, timing=None):
         else:
             body.append(p(rng.choice(['hello', '  spaced  ', '(note)', '<tech>', '(half', 'half>', '(a) and (b)', '', None,
                                       ' ', ' wide ', ' nbsp ', '((nested))', '<a>b<c>', 'Zoë says ☃', '\t(tabbed)\n', '(mixed>', '<mixed)', '(a) b <c>', '<x) y (z>', ')(', '><',
-                                      '&amp; more', '&lt;x&gt;', '&nbsp;', '&#233;t&#233;', 'fish &chips &copy 2020', '(CAPTION: JANE\nReporter)', '<CAM 2\n   wide shot>', '\n  (padded\nnote)\n', 'two\nlines', '(half\nopen', '()', '<>'])))
+                                      '\U0001F600 breaking \U0001D538', '\U00020000', '&amp; more', '&lt;x&gt;', '&nbsp;', '&#233;t&#233;', 'fish &chips &copy 2020', '(CAPTION: JANE\nReporter)', '<CAM 2\n   wide shot>', '\n  (padded\nnote)\n', 'two\nlines', '(half\nopen', '()', '<>'])))
     if rng.random() < 0.2:
         body.append(E('pi', text='other element'))
     meta = None
